@@ -83,9 +83,16 @@ GP_STEPS = {
     "tournament;mutation(1);crossover(1)": lambda: SequenceStep(TournamentSelection(2), GenericMutationStep(1), GenericCrossoverStep(1)),
     "novelty|xpar[mutation(1),crossover(1)]": lambda: ParallelStep([NoveltyStep(), ExclusiveParallelStep([GenericMutationStep(1), GenericCrossoverStep(1)])], weights=[1, 3]),
     "elitism|xpar[mutation(1),crossover(1)]": lambda: ParallelStep([ElitismStep(), ExclusiveParallelStep([GenericMutationStep(1), GenericCrossoverStep(1)], [2, 1])], weights=[1, 9]),
+    # slices whose rounded shares overshoot the population (a trailing weight of zero, or a tiny one): the generation still has
+    # exactly population_size members, so at most that many evaluations fall between two budget checks
+    "novelty|tournament;mutation(1)|novelty[1,1,0]": lambda: ParallelStep(
+        [NoveltyStep(), SequenceStep(TournamentSelection(2), GenericMutationStep(1)), NoveltyStep()], weights=[1, 1, 0]),
+    "novelty|novelty|tournament;mutation(1)|novelty[1,1,1,0.1]": lambda: ParallelStep(
+        [NoveltyStep(), NoveltyStep(), SequenceStep(TournamentSelection(2), GenericMutationStep(1)), NoveltyStep()], weights=[1, 1, 1, 0.1]),
     "elitism": lambda: ElitismStep(),
     "tournament": lambda: TournamentSelection(2),
 }
+OVERSHOOTING = ["novelty|tournament;mutation(1)|novelty[1,1,0]", "novelty|novelty|tournament;mutation(1)|novelty[1,1,1,0.1]"]
 PROGRESSING = ["default", "elitism|novelty", "tournament;crossover(1);mutation(1)", "novelty", "mutation(1);tournament",
                "tournament;mutation(1);crossover(1)", "novelty|xpar[mutation(1),crossover(1)]", "elitism|xpar[mutation(1),crossover(1)]"]
 NON_PROGRESSING = ["elitism", "tournament"]
@@ -242,6 +249,12 @@ def check_evaluation_budgets(h: Harness):
         for (size, n) in [(3, 10), (6, 40), (1, 4), (4, 9)]:
             one("gp", size, st, n, rep_cls=StructuralRep)
             h.count("evals:one-program-search-space")
+    # parallel steps whose rounded slice shares overshoot the population size
+    for st in OVERSHOOTING:
+        for size in ((3, 7, 2) if not h.thorough else (1, 2, 3, 4, 5, 7, 10, 11, 13)):
+            for n in range(size, 3 * size + 3):
+                one("gp", size, st, n)
+                h.count("evals:overshooting-slices")
     # steps that create no new individual: the counter cannot move
     for st in NON_PROGRESSING:
         for (size, n) in [(2, 3), (3, 10), (5, 6), (1, 2), (4, 4), (6, 2)] + ([(s, s + d) for s in range(1, 9) for d in (1, 5)] if h.thorough else []):
